@@ -62,6 +62,7 @@ const PATH: &str = "/sim/out.agc";
 
 fn world_with(bytes: &[u8], faults: Option<(u8, u8, u64)>) -> World {
     let mut w = World::new();
+    w.knobs.bufreader_cap = [8192usize, 512, 64, 7][(seed::fnv64(&bytes[..bytes.len().min(64)]) % 4) as usize];
     w.put_file(PATH, bytes.to_vec());
     if let Some((s, e, seed)) = faults {
         w.faults = FaultPlan { short_read_pct: s, eintr_read_pct: e, rng: seed, ..Default::default() };
